@@ -1949,8 +1949,9 @@ impl TestTextSelection for TextSelection {
                 if !allow_whitespace {
                     Some(self.end) == leftmost
                 } else if let Some(leftmost) = leftmost {
-                    let l = self.end - leftmost;
-                    if l == 0 {
+                    if leftmost < self.end {
+                        false
+                    } else if leftmost == self.end {
                         true
                     } else {
                         if let Ok(gap) =
@@ -1982,8 +1983,9 @@ impl TestTextSelection for TextSelection {
                 if !allow_whitespace {
                     Some(self.begin) == rightmost
                 } else if let Some(rightmost) = rightmost {
-                    let l = rightmost - self.begin;
-                    if l == 0 {
+                    if self.begin < rightmost {
+                        false
+                    } else if self.begin == rightmost {
                         true
                     } else {
                         if let Ok(gap) =
